@@ -191,7 +191,12 @@ def runLine (prop tiS toS lineS extS implS : String) : Result :=
 def runEmit (prop toS valS extS implS : String) : Result :=
   let env : Env := ⟨genTables, parseExt extS⟩
   match tmplOf env toS, Dyn.parse? valS with
-  | some to, some v => judge prop s!"emit to=[{toS}] v=[{valS}]" (exportLine env to v) implS
+  | some to, some v =>
+    -- JSON text handed to Export: the emitted line is judged against the rendering template (C03, C04)
+    match v with
+    | .str line => judge prop s!"emit to=[{toS}] v=[{valS}]" (exportLine env to v) implS (colsOf toS) line
+    | .bytes line => judge prop s!"emit to=[{toS}] v=[{valS}]" (exportLine env to v) implS (colsOf toS) line
+    | _ => judge prop s!"emit to=[{toS}] v=[{valS}]" (exportLine env to v) implS
   | _, _ => ⟨"B", "cannot parse template or value"⟩
 
 mutual
